@@ -50,6 +50,15 @@ def should_accept(mapping: dict[int, int], used: set[int]) -> bool:
     return len(mapping) > 0 and len(set(vals)) == len(vals) and used <= set(mapping)
 
 
+def expected_relabelling(mapping, gate_wires):
+    """gate_wires: [(targets, controls)] of the logical circuit -> (backend register size, [(targets, controls)]) of
+    the circuit the backend must receive, or None when the mapping has to be refused for this circuit"""
+    used = {q for t, c in gate_wires for q in list(t) + list(c)}
+    if not should_accept(dict(mapping), used):
+        return None
+    return max(mapping.values()) + 1, [([mapping[q] for q in t], [mapping[q] for q in c]) for t, c in gate_wires]
+
+
 # ---------------------------------------------------------------------------
 # classical reversible circuits on basis states (exact integers)
 # ---------------------------------------------------------------------------
@@ -96,6 +105,8 @@ def braket_classical_run(braket_circuit) -> set[int]:
         name = ins.operator.name
         qs = [int(q) for q in ins.target]
         g = G()
+        if name in ("Rz", "PhaseShift", "Z", "S", "Si", "T", "Ti"):
+            name = "I"  # diagonal one-qubit gates leave every basis state in place (Identity2RZTranspiler emits Rz)
         g.name = {"X": "X", "CNot": "CNOT", "Swap": "SWAP", "CCNot": "TOFFOLI", "I": "Identity"}[name]
         if name in ("CNot", "CCNot"):
             g.control_indices, g.target_indices = qs[:-1], qs[-1:]
@@ -103,6 +114,37 @@ def braket_classical_run(braket_circuit) -> set[int]:
             g.control_indices, g.target_indices = [], qs
         gs.append(g)
     return classical_run(gs, set())
+
+
+# ---------------------------------------------------------------------------
+# shot batches of the sampling back ends (documented behaviour, stated on the remainder instead of by construction)
+# ---------------------------------------------------------------------------
+def expected_shot_batches(n_shots: int, lo: int, hi, roundup) -> list[int] | None:
+    """batches a back end may hand to the device for `n_shots` when one task accepts lo..hi shots
+    (hi None = unbounded).  None = the request must be refused (fewer shots than the device minimum and rounding
+    up not allowed).  Full batches of `hi` first; the remainder r = n_shots mod hi is run as it is when the device
+    accepts it, rounded up to `lo` when allowed, dropped otherwise."""
+    if hi is None or n_shots <= hi:
+        if n_shots >= lo:
+            return [n_shots]
+        return [lo] if roundup else None
+    out = [hi for _ in range(n_shots // hi)]
+    r = n_shots - hi * len(out)
+    if r >= lo:
+        out.append(r)
+    elif r > 0 and roundup:
+        out.append(lo)
+    return out
+
+
+def shot_batches_admissible(batches, n_shots: int, lo: int, hi, roundup) -> bool:
+    """the invariants the class docstrings state, independent of how the list is built (lo <= hi assumed)"""
+    if any(b < lo or (hi is not None and b > hi) for b in batches):
+        return False
+    total = sum(batches)
+    if roundup:
+        return n_shots <= total < n_shots + lo
+    return n_shots - lo < total <= n_shots
 
 
 # ---------------------------------------------------------------------------
